@@ -129,7 +129,7 @@ def gen_viewer_messages(r, n, keys=None, allow_unrecordable=False, kinds=None):
         elif k == "fbur":
             out.append((struct.pack("!BBHHHH", 3, r.randrange(2), 0, 0, r.randrange(65536), r.randrange(65536)), ("other",)))
         elif k == "cut":
-            t = bytes(r.randrange(256) for _ in range(r.choice([0, 0, 1, 5, 5000, 5000, 70000, 200000, 262145, 300000])))
+            t = r.randbytes(r.choice([0, 0, 1, 5, 5000, 5000, 70000, 200000, 262145, 300000]))
             out.append((struct.pack("!BxxxI", 6, len(t)) + t, ("other",)))
         elif k == "qemu":
             ks = r.choice(keys or KEYSYMS)
